@@ -95,8 +95,9 @@ Section VerifyP.
     | _, _ => false
     end.
 
-  (* VerifyAnyQC *)
-  Definition verify_any_qc_p (sd : qcdigest -> N) (bqc : qc) (agg : option aggqc)
+  (* VerifyAnyQC (repaired: the block's QC is compared with the high QC by view and block hash only,
+     see CertModel.qc_same_block; [qc_equals_sd] above documents what QuorumCert.Equals compares) *)
+  Definition verify_any_qc_p (bqc : qc) (agg : option aggqc)
              (pick : result qc -> result qc) : result unit :=
     match (if c_aggqc c then agg else None) with
     | Some a =>
@@ -104,7 +105,7 @@ Section VerifyP.
         | None => Reject
         | Some _ =>
             match pick (verify_aggqc_p a) with
-            | Ok hq => if negb (qc_equals_sd sd bqc hq) then Reject else verify_qc_p bqc
+            | Ok hq => if negb (qc_same_block bqc hq) then Reject else verify_qc_p bqc
             | Reject => Reject
             | Panic => Panic
             end
